@@ -78,6 +78,14 @@ THOROUGH_CONTEXTS = {
     "if": ("QC {{#if:1|QA %s QB}} QD", True),
     "targ2": ("QC {{echo|{{echo|QA %s QB}}}} QD", True),
     "caption": ("{|\n|+ QA %s QB\n|-\n| c\n|}", False),
+    "blockquote": ("<blockquote>QA %s QB</blockquote>", False),
+    "li-html": ("<ul><li>QA %s QB</li></ul>", False),
+    "extlink": ("[http://x.org QA %s QB]", False),
+    "imgcap": ("[[File:A.png|thumb|QA %s QB]]", False),
+    "tablattr": ("{|\n|-\n| style=\"a\" | QA %s QB\n|}", False),
+    "pre-sp": (" QA %s QB\n", False),
+    "ref": ("QC<ref>QA %s QB</ref>", False),
+    "ref+db": ("QC<ref>QA %s QB</ref>", True),
 }
 BASE_DB = {"echo": "({{{1}}})", "c": "CCC", "Template:c": "CCC"}
 
@@ -146,6 +154,10 @@ def gen_search_cases(rng, tier):
             for ctx in contexts:
                 if tier == "quick" and rng.random() < 0.72:
                     continue
+                if ctx.startswith("ref") and closes("ref", fr):
+                    continue      # the enclosing <ref> region would end there (leftmost region wins, as in MediaWiki)
+                if ctx == "caption" and tag != "nowiki":
+                    continue      # find_caption ends the caption at any non-text token (context limitation, not body dependent)
                 cases.append(make_case(i, tag, "", fr, "plain", ctx, contexts))
                 i += 1
     # 2. random bodies
@@ -156,7 +168,10 @@ def gen_search_cases(rng, tier):
         body = gen_body(rng, tag, 5 if tier == "quick" else 8)
         attrs = rng.choice(ATTRS)
         variant = rng.choice(["plain", "plain", "plain", "upper", "mixed", "space"])
-        cases.append(make_case(i, tag, attrs, body, variant, rng.choice(ctxs), contexts))
+        ctx = rng.choice(ctxs)
+        if (ctx == "caption" and tag != "nowiki") or (ctx.startswith("ref") and closes("ref", body)):
+            ctx = "cell"
+        cases.append(make_case(i, tag, attrs, body, variant, ctx, contexts))
         i += 1
     return cases
 
@@ -199,6 +214,8 @@ def neutralise(case, what, contexts):
         body2 = PP_RX.sub(lambda m: m.group(0).replace("<", "(").replace(">", ")"), body)
     elif what == "src":
         body2 = re.sub(r"(?i)</source", "(/source", body)
+    elif what == "nl":
+        body2 = body.replace("\n", " ").replace("|", "!")
     else:
         raise ValueError(what)
     if body2 == body:
@@ -453,6 +470,12 @@ KNOWN_CLASSES = {
            "<noinclude>/<includeonly>/<onlyinclude> inside a protected body are interpreted (templ/scanner.py runs pp.preprocess before replace_tags)"),
     "src": ("opacity:syntaxhighlight-body-reparsed-as-source",
             "</source> inside <syntaxhighlight> ends the body: tagext.Syntaxhighlight re-parses '<source>body</source>'"),
+    "nl": ("opacity:table-caption-newline-or-pipe-in-protected-body",
+           "a leading newline / a lone | inside a protected body in a table caption line (|+) ends the caption / starts its attribute "
+           "part: parse_table.find_caption tests token.text instead of the token type"),
+    "ref-nodb": ("opacity:ref-without-wikidb-marker-unresolved",
+                 "a protected region inside <ref> is lost when parsing without wikidb: create_ref expands through the default "
+                 "Expander's own Uniquifier, parse_txt looks the marker up in another one"),
 }
 
 
@@ -460,8 +483,9 @@ def check(run):
     run.rule = ("search: wikitext = context[<tag attrs>body</tag>], tag in {nowiki,pre,math,source,syntaxhighlight,timeline}; body = every single "
                 "fragment of a 140-fragment markup alphabet (systematic part, sampled 28% in quick, all in thorough) and random concatenations of "
                 "1..5 (quick) / 1..8 (thorough) fragments not containing the tag's own closing tag nor 0x7f; 14 contexts (top level, alone, list item, two regions of the same tag, "
-                "table cell, bold, each with and without a template universe, positional/named template argument, template body), thorough adds 8 "
-                "more; oracle: tree(context[body]) = tree(context[placeholder]) with the placeholder leaf replaced by the body. "
+                "table cell, bold, each with and without a template universe, positional/named template argument, template body), thorough adds 16 "
+                "more (heading, link caption, definition list, div, italic, #if, nested template argument, table caption, blockquote, html list, "
+                "external link, image caption, cell with attributes, space-indented line, <ref> with/without wikidb); oracle: tree(context[body]) = tree(context[placeholder]) with the placeholder leaf replaced by the body. "
                 "tie: texts of 1..5 pieces (tag occurrence with attribute/termination/case variants, comment with newline/space borders, markup text, "
                 "marker-like strings) + a systematic tags x attribute forms x termination forms part. distinct = distinct input; "
                 "non-trivial = at least one region replaced (tie) / every search case (all bodies contain markup)")
@@ -515,6 +539,8 @@ def check(run):
     if tier == "thorough":
         contexts.update(THOROUGH_CONTEXTS)
     scases = gen_search_cases(run.rng, tier)
+    contexts = dict(CONTEXTS)
+    contexts.update(THOROUGH_CONTEXTS)      # corpus cases may use any context: attribution/shrinking know them all
     for i, c in enumerate(ctree):
         c = dict(c, id=len(scases) + i)
         scases.append(c)
@@ -533,12 +559,17 @@ def check(run):
             run.sample({"wikitext": c["raw"], "db": c["db"], "leaf": r.get("leaf")})
     # attribution by difference: does the mismatch disappear when the suspected construct is neutralised?
     attributed = {}
-    for what in ("pp", "src"):
+    for c, r in failing:
+        if c["ctx"] == "ref" and (r["kind"] == "lost" or "UNIQ-" in r["why"]):
+            attributed[id(c)] = "ref-nodb"
+    for what in ("pp", "src", "nl"):
         todo = []
         for c, r in failing:
             if id(c) in attributed:
                 continue
             if what == "src" and c["tag"] != "syntaxhighlight":
+                continue
+            if what == "nl" and c["ctx"] != "caption":
                 continue
             v = neutralise(c, what, contexts) if c["ctx"] in contexts else None
             if v is not None:
@@ -553,7 +584,7 @@ def check(run):
     for c, r in failing:
         cls = attributed.get(id(c), "other")
         by_class.setdefault(cls, []).append((c, r))
-    for cls, lst in sorted(by_class.items()):
+    for cls, lst in sorted(by_class.items(), key=lambda kv: (kv[0] not in KNOWN_CLASSES, kv[0])):
         lst.sort(key=lambda cr: (len(cr[0]["body"]), cr[0]["ctx"], cr[0]["tag"]))
         if cls in KNOWN_CLASSES:
             fp, what = KNOWN_CLASSES[cls]
